@@ -82,6 +82,16 @@ func (w *World) Canon(sat time.Duration) string {
 		}
 		fmt.Fprintf(&sb, "F[%s=%s]\n", k, v)
 	}
+	if w.Layout != nil {
+		lk := make([]string, 0, len(w.Layout))
+		for k := range w.Layout {
+			lk = append(lk, k)
+		}
+		sort.Strings(lk)
+		for _, k := range lk {
+			fmt.Fprintf(&sb, "L[%s=%s]\n", k, c.sym(fmt.Sprint(w.Layout[k])))
+		}
+	}
 	tk := make([]string, 0, len(w.Truth.Times))
 	for k := range w.Truth.Times {
 		tk = append(tk, k)
